@@ -1,7 +1,17 @@
 (** C09 - Each mutation has exactly its stated effect; the rest is untouched.
 
-    PARTIAL.  The refinement of every operation to the abstract message operations is decided each
-    run by the correspondence and the abstract-effect oracle (gen/hist.py).  Proved here: the byte
+    PARTIAL.  Proved in full for one operation on a freshly parsed object (C09_insert_effect): for every
+    accepted packet, every record section and every well-formed pointer-free non-OPT record
+    ([plain_rr_ok]: its encoding is a well-formed record wherever it is placed; records of accepted
+    packets are such records, C09_accepted_records_insertable), when [insert_rr] succeeds the object
+    holds the pointer-free encoding of the same question and the same records with the new record
+    appended at the end of the chosen section (and only that section's count incremented); those bytes
+    are accepted; they read declaratively as exactly that; and the object's section offsets, EDNS
+    offset, option count, extended rcode / version / flags, payload size, compression flag and cache
+    are those of a fresh parse of them (the C08 clause for this operation).  For answer / authority
+    insertion the packet must be a response (the parser's QR gating: known finding qr-gating otherwise).
+    For the other operations the refinement to the abstract message operations is decided each
+    run by the correspondence and the abstract-effect oracle (gen/hist.py).  Also proved: the byte
     level effect of insertion (the record is spliced at the insertion offset of the packet with one
     count incremented, nothing else moves), the frame of the TTL setter, and the effect of the TTL
     setter on what a reader sees (C09_set_ttl_effect): on a section that reads declaratively as the
@@ -13,7 +23,7 @@
     second record in the implementation (known finding data-pointer). *)
 From DV Require Import Model.Base Model.NameCheck Model.Parser Model.Header Model.Readers Model.Uncompress
   Model.Mutate Spec.NameSpec Spec.PacketSpec Spec.RecordSpec Proofs.Hoare Proofs.HeaderBits Proofs.InsertLemmas
-  Proofs.WalkValues Proofs.SetTtl.
+  Spec.PlainSpec Proofs.WalkValues Proofs.SetTtl Proofs.WalkSkip Proofs.PlainWf Proofs.InsertSpec.
 From Coq Require Import Lia.
 
 Theorem C09_insert_appends : forall sec rr v it s',
@@ -118,3 +128,70 @@ Proof.
   split; eexists; (split; [vm_compute; reflexivity|reflexivity]).
 Qed.
 Print Assumptions C09_set_ttl_without_it_refuted.
+
+Theorem C09_insert_effect : forall p v it sec rx s',
+  bytes_ok p -> parse p = Ok v -> plain_rr_ok rx -> sec = SAnswer \/ sec = SNameServers \/ sec = SAdditional ->
+  (sec <> SAdditional -> exists w, u16_at p 2 w /\ N.land w 32768 = 32768%N) ->
+  m_insert_rr sec (plain_record rx) (v, it) = (s', Ok tt) ->
+  exists q qls qt A Nn R,
+    let o1 := 12 + length (wire_of_labels qls) + 4 in
+    uncompress p = Ok q /\
+    reading q qls qt (place o1 A) (place (o1 + length (cat A)) Nn) (place (o1 + length (cat A) + length (cat Nn)) R) /\
+    let A' := ext_a sec rx A in let N' := ext_n sec rx Nn in let R' := ext_r sec rx R in
+    let z := pp_packet (fst s') in
+    q = build (firstn 12 q) qls qt A Nn R /\ z = build (firstn 12 z) qls qt A' N' R' /\
+    bytes_ok z /\ wf_packet z /\
+    reading z qls qt (place o1 A') (place (o1 + length (cat A')) N') (place (o1 + length (cat A') + length (cat N')) R') /\
+    snd s' = it /\
+    exists f, parse z = Ok f /\
+      pp_offset_question (fst s') = pp_offset_question f /\ pp_offset_answers (fst s') = pp_offset_answers f /\
+      pp_offset_nameservers (fst s') = pp_offset_nameservers f /\ pp_offset_additional (fst s') = pp_offset_additional f /\
+      pp_offset_edns (fst s') = pp_offset_edns f /\ pp_edns_count (fst s') = pp_edns_count f /\
+      pp_ext_rcode (fst s') = pp_ext_rcode f /\ pp_edns_version (fst s') = pp_edns_version f /\
+      pp_ext_flags (fst s') = pp_ext_flags f /\ pp_max_payload (fst s') = pp_max_payload f /\
+      pp_maybe_compressed (fst s') = false /\ pp_cached (fst s') = None.
+Proof. exact insert_fresh. Qed.
+Print Assumptions C09_insert_effect.
+
+(** the vocabulary of the statement above, spelled out *)
+Example C09_insert_vocabulary :
+  (forall sec rx A, ext_a sec rx A = match sec with SAnswer => A ++ [rx] | _ => A end) /\
+  (forall sec rx N_, ext_n sec rx N_ = match sec with SNameServers => N_ ++ [rx] | _ => N_ end) /\
+  (forall sec rx R, ext_r sec rx R = match sec with SAdditional => R ++ [rx] | _ => R end) /\
+  (forall H qls qt A N_ R, build H qls qt A N_ R = H ++ plain_question qls qt CLASS_IN ++ cat A ++ cat N_ ++ cat R) /\
+  (forall l, cat l = concat (map plain_record l)) /\
+  (forall o rx l, place o (rx :: l) = (rv_at (fst rx) (snd rx) o, snd rx) :: place (o + length (plain_record rx)) l) /\
+  (forall rx, plain_rr_ok rx <->
+     is_opt (fst rx) = false /\ bytes_ok (plain_record rx) /\
+     forall sec seen pre post,
+       let q := pre ++ plain_record rx ++ post in
+       let e := length pre + length (plain_record rx) in
+       rr_wf q sec seen (length pre) e seen /\ record_at q (rv_at (fst rx) (snd rx) (length pre)) e /\
+       rdata_at q (rv_at (fst rx) (snd rx) (length pre)) (snd rx)).
+Proof.
+  split; [reflexivity|]. split; [reflexivity|]. split; [reflexivity|]. split; [reflexivity|]. split; [reflexivity|]. split; [reflexivity|].
+  intros rx. unfold plain_rr_ok. tauto.
+Qed.
+
+Theorem C09_accepted_records_insertable : forall p0 sec seen off off1 seen1, bytes_ok p0 -> rr_wf p0 sec seen off off1 seen1 ->
+  exists r x, rv_off r = off /\ record_at p0 r off1 /\ rdata_at p0 r x /\ (is_opt r = false -> plain_rr_ok (r, x)).
+Proof. exact accepted_record_ok. Qed.
+Print Assumptions C09_accepted_records_insertable.
+
+(** Non-vacuity of [plain_rr_ok]: the A record of a small response is such a record. *)
+Definition c09_sample : bytes := [0;7; 129;128; 0;1; 0;1; 0;0; 0;0;  1;97;0; 0;1; 0;1;  192;12; 0;1; 0;1; 0;0;0;9; 0;4; 1;2;3;4]%N.
+
+Example C09_insertable_record_exists : exists rx, plain_rr_ok rx /\ is_opt (fst rx) = false.
+Proof.
+  assert (Hb : bytes_ok c09_sample) by (unfold bytes_ok, c09_sample; repeat constructor).
+  assert (Hcn : cname c09_sample 19 21) by (apply NameIff.check_compressed_name_iff; vm_compute; reflexivity).
+  assert (Hwf : rr_wf c09_sample SAnswer false 19 35 false).
+  { exists 21, 1%N, 4%N. split; [exact Hcn|]. split; [cbn; lia|].
+    split; [exists 0%N, 1%N; repeat split|]. split; [exists 0%N, 4%N; repeat split|]. split; [reflexivity|]. split; [cbn; lia|].
+    cbn. split; [reflexivity|]. reflexivity. }
+  destruct (accepted_record_ok c09_sample SAnswer false 19 35 false Hb Hwf) as (r & x & Hoff & Hr & Hx & Hok).
+  assert (Hno : is_opt r = false).
+  { destruct Hr as (Hcl & Ht & _). rewrite Hoff in Hcl. destruct Hcn as (ls & Hcn). destruct (QuestionSpec.cname_l_fun _ _ _ _ _ _ Hcl Hcn) as [_ E].
+    rewrite E in Ht. destruct Ht as (a & b & Ha & Hb' & Et). vm_compute in Ha, Hb'. inversion Ha; inversion Hb'; subst. unfold is_opt. rewrite Et. reflexivity. }
+  exists (r, x). split; [apply Hok; exact Hno|exact Hno].
+Qed.
